@@ -350,7 +350,7 @@ impl Editor<'_> {
             11 => {
                 // add a file (names before, between and after the existing ones)
                 let d = self.pick_dir_or_root();
-                let tag = ["A", "e1", "zz"][self.r.below(3) as usize];
+                let tag = ["A", "e1_", "zz"][self.r.below(3) as usize];
                 let n = self.fresh_name(tag);
                 let p = self.root.join(d).join(n);
                 let b = rand_upto(self.r, 20000);
@@ -612,6 +612,13 @@ fn restore_to_catch(repo: RepoOpen, snap: &str, dest: &Path) -> Result<(), Strin
 
 fn main() {
     let mode = std::env::args().nth(2).unwrap_or_default();
+    if std::env::var("C11_DEBUG").is_ok() {
+        // no panic hook, no catch: show where a case fails
+        for l in std::fs::read_to_string(std::env::args().nth(1).unwrap()).unwrap().lines() {
+            println!("{}", if mode == "e2e" { e2e_case(l) } else { hook_case(l) });
+        }
+        return;
+    }
     if mode == "e2e" {
         for_each_case(|l| e2e_case(l));
     } else {
